@@ -1,8 +1,11 @@
 (* C15 — Per-thread fixtures and ThreadedFactory objects are never shared between threads.
-   Only statements here; proofs are in Proofs/ThreadedP.v; the model is Model/Threaded.v.
+   Only statements here; proofs are in Proofs/ThreadedP.v; the model is Model/Threaded.v (teardown_factory as repaired by
+   fixes/F21-threaded-factory-teardown-all.patch: every object is torn down even when teardown_object raises, the first
+   failure is raised at the end).
    Every theorem quantifies over ALL schedules [sch : list actor] (any number of threads, any interleaving of the
    source lines of get_object of different threads and of teardown_factory) and over all outcomes [c : cfg] of the
-   user code (which setup_object / teardown_object calls raise).
+   user code (which setup_object calls raise; which teardown_object calls raise an Exception or a BaseException that is
+   not an Exception).
    Assumed (not proved): threading.local gives each thread its own slot; list.append and attribute assignment are atomic
    (GIL); a thread executes one get_object at a time (setup_object does not call get_object of the same factory);
    teardown_factory is called once (ScheduledFixtures._teardown_fixture deletes the result after calling teardown). *)
@@ -46,74 +49,138 @@ Theorem C15_reused_same_object : forall (c : cfg) (sch : list actor) (t : tid) (
 Proof. exact same_object. Qed.
 Print Assumptions C15_reused_same_object.
 
-(* teardown, at every moment of every run (even when teardown_object raises): no object is torn down twice and only
+(* teardown, at every moment of every run (whatever teardown_object raises): no object is torn down twice and only
    created objects are torn down *)
 Theorem C15_never_torn_down_twice : forall (c : cfg) (sch : list actor),
   NoDup (torn (run c sch)) /\ forall o, In o (torn (run c sch)) -> exists t, In (t, o) (created (run c sch)).
 Proof. exact never_twice. Qed.
 Print Assumptions C15_never_torn_down_twice.
 
-(* teardown racing with first accesses: at the step in which teardown_factory returns, it has torn down exactly the
-   list _objects, and every object created so far has been torn down EXCEPT those whose creating thread is still
-   between the return of setup_object and self._objects.append (in_flight) *)
-Theorem C15_torn_down_all_but_in_flight : forall (c : cfg) (sch : list actor), teardown_returns_after c sch ->
+(* teardown racing with first accesses, whatever teardown_object raised (Exceptions): at the step in which the loop of
+   teardown_factory ends (the for line finds the list exhausted), teardown_factory has torn down exactly the list
+   _objects, and every object created so far has been torn down EXCEPT those whose creating thread is still between
+   the return of setup_object and self._objects.append (in_flight) ... *)
+Theorem C15_torn_down_all_but_in_flight : forall (c : cfg) (sch : list actor), teardown_loop_ends_after c sch ->
   torn (run c (sch ++ [Main])) = objects (run c (sch ++ [Main])) /\
   forall t o, In (t, o) (created (run c (sch ++ [Main]))) ->
               In o (torn (run c (sch ++ [Main]))) \/ in_flight (run c (sch ++ [Main])) t o.
-Proof. exact teardown_complete. Qed.
+Proof. exact loop_end. Qed.
 Print Assumptions C15_torn_down_all_but_in_flight.
 
-(* the framework's situation (the teardown task of the scope depends on every test of the scope, so no thread is inside
-   get_object): every created object is torn down exactly once, none twice, none forgotten, nothing else *)
-Theorem C15_torn_down_exactly_once : forall (c : cfg) (sch : list actor), teardown_returns_after c sch ->
-  (forall t o, ~ in_flight (run c (sch ++ [Main])) t o) ->
-  NoDup (torn (run c (sch ++ [Main]))) /\
-  forall o, In o (torn (run c (sch ++ [Main]))) <-> exists t, In (t, o) (created (run c (sch ++ [Main]))).
+(* ... and nothing is torn down after the loop (the two last lines of the repaired teardown_factory only re-raise) *)
+Theorem C15_nothing_torn_down_after_loop : forall (c : cfg) (sch1 sch2 : list actor),
+  after_loop (td (run c sch1)) = true -> torn (run c (sch1 ++ sch2)) = torn (run c sch1).
+Proof. exact nothing_after_loop. Qed.
+Print Assumptions C15_nothing_torn_down_after_loop.
+
+(* exactly once, for every interleaving and EVEN WHEN teardown_object RAISES: when teardown_factory has finished (returned,
+   or raised the first failure at its last line) and at no moment since the end of its loop a thread was between the
+   return of setup_object and the append, every created object has been torn down exactly once: none twice, none
+   forgotten, nothing else.  (Before the repair this needed "no teardown_object raises".) *)
+Theorem C15_torn_down_exactly_once : forall (c : cfg) (sch : list actor),
+  td_finished (td (run c sch)) = true -> quiet_after_loop c sch ->
+  NoDup (torn (run c sch)) /\
+  forall o, In o (torn (run c sch)) <-> exists t, In (t, o) (created (run c sch)).
 Proof. exact teardown_exact. Qed.
 Print Assumptions C15_torn_down_exactly_once.
 
-(* the hypothesis [teardown_returns_after] is always reachable: whenever teardown_factory has not been called yet and no
-   teardown_object raises, letting the calling code run (alone) makes teardown_factory return after finitely many steps *)
+(* the framework's situation (the teardown task of the scope depends on every test of the scope, so no thread is inside
+   get_object when teardown_factory is called and none enters it while it runs): whatever happened before (any sch),
+   if no thread is in flight when teardown_factory is called and it then runs to its end, every created object has
+   been torn down exactly once *)
+Theorem C15_torn_down_exactly_once_alone : forall (c : cfg) (sch : list actor) (k : nat),
+  td (run c sch) = TdNotCalled -> (forall t o, ~ in_flight (run c sch) t o) ->
+  td_finished (td (run c (sch ++ repeat Main k))) = true ->
+  NoDup (torn (run c (sch ++ repeat Main k))) /\
+  forall o, In o (torn (run c (sch ++ repeat Main k))) <-> exists t, In (t, o) (created (run c (sch ++ repeat Main k))).
+Proof. exact teardown_exact_alone. Qed.
+Print Assumptions C15_torn_down_exactly_once_alone.
+
+(* the hypothesis "finished" is always reachable, also when teardown_object raises Exceptions: whenever teardown_factory has
+   not been called yet and no teardown_object raises a BaseException that is not an Exception, letting the calling code
+   run (alone) makes teardown_factory return or raise at its last line after finitely many steps *)
 Theorem C15_teardown_completes : forall (c : cfg) (sch : list actor),
-  (forall o, td_fails c o = false) -> td (run c sch) = TdNotCalled ->
-  exists k, teardown_returns_after c (sch ++ repeat Main k).
+  (forall o, td_outcome c o <> TdBaseExc) -> td (run c sch) = TdNotCalled ->
+  exists k, teardown_finishes_after c (sch ++ repeat Main k).
 Proof. exact teardown_completes. Qed.
 Print Assumptions C15_teardown_completes.
 
-(* ---- what does NOT hold of the code as it is ---- *)
+(* what teardown_factory does at its end: it returns iff no teardown_object call raised, otherwise it raises the
+   exception of the FIRST teardown_object call that raised (in teardown order) *)
+Theorem C15_first_failure_raised : forall (c : cfg) (sch : list actor),
+  (td (run c sch) = TdDone -> find (td_fails c) (torn (run c sch)) = None) /\
+  (forall e, td (run c sch) = TdRaised e -> find (td_fails c) (torn (run c sch)) = Some e).
+Proof. exact first_failure. Qed.
+Print Assumptions C15_first_failure_raised.
+
+(* ---- what does NOT hold ---- *)
 
 (* (a) without the no-thread-in-flight hypothesis "none forgotten" is false: teardown_factory called while thread 0 is
-   between setup_object and the append; the thread then completes, receives object 0, and object 0 is never torn down.
+   between setup_object and the append; the loop ends (nothing to tear down), the thread then appends and completes,
+   receives object 0, teardown_factory returns with every thread idle, and object 0 is never torn down.
    Reachable only through the public ThreadedFactory API (teardown_factory called while another thread is in its first
-   get_object), not through the fixture scheduler. *)
-Definition sch_inflight : list actor := [Th 0; Th 0; Th 0; Th 0; Main; Main; Th 0; Th 0; Th 0].
+   get_object), not through the fixture scheduler.  OPEN known finding. *)
+Definition sch_inflight : list actor := [Th 0; Th 0; Th 0; Th 0; Main; Main; Main; Th 0; Th 0; Th 0; Main].
 Theorem C15_torn_down_in_flight_refuted : exists (sch : list actor) (t : tid) (o : obj),
   let s := run no_failure sch in
   In (t, Some o) (accesses s) /\ pcs s t = Idle /\ td s = TdDone /\ In o (objects s) /\ ~ In o (torn s).
 Proof. exists sch_inflight, 0, 0. vm_compute. intuition discriminate. Qed.
 Print Assumptions C15_torn_down_in_flight_refuted.
 
-(* (b) when teardown_object raises for one object, the loop in teardown_factory is left and the objects of the other
-   threads are never torn down, although every thread was idle when teardown_factory was called.
-   Reachable through the scheduler: a per-thread generator fixture whose code after the yield raises on one thread. *)
+(* (b) the code BEFORE the repair fixes/F21 (Model.Threaded.step_main_unfixed: `for obj in self._objects:
+   self.teardown_object(obj)`): when teardown_object raised for one object, the loop was left and the objects of the
+   other threads were never torn down, although every thread was idle when teardown_factory was called.
+   Was reachable through the scheduler: a per-thread generator fixture whose code after the yield raises on one thread.
+   FIXED: C15_torn_down_exactly_once above holds of the repaired code without any hypothesis on teardown_object. *)
 Definition sch_raise : list actor :=
   [Th 0; Th 0; Th 0; Th 0; Th 0; Th 0; Th 0; Th 1; Th 1; Th 1; Th 1; Th 1; Th 1; Th 1; Main; Main; Main; Main; Main; Main].
-Theorem C15_torn_down_after_raise_refuted : exists (c : cfg) (sch : list actor) (t : tid) (o : obj),
+Theorem C15_torn_down_after_raise_unfixed_refuted : exists (c : cfg) (sch : list actor) (t : tid) (o : obj),
+  let s := run_unfixed c sch in
+  In (t, Some o) (accesses s) /\ pcs s 0 = Idle /\ pcs s 1 = Idle /\ length (created s) = 2 /\ td s = TdRaised 0 /\
+  In o (objects s) /\ ~ In o (torn s) /\ torn (run_unfixed c (sch ++ [Main; Main; Main])) = torn s.
+Proof. exists (cfg_of [] [0] []), sch_raise, 1, 1. vm_compute. intuition discriminate. Qed.
+Print Assumptions C15_torn_down_after_raise_unfixed_refuted.
+
+(* (c) the repaired loop catches `Exception` only: a teardown_object that raises a BaseException which is not an Exception
+   (KeyboardInterrupt, SystemExit) still leaves teardown_factory at once and the remaining objects are not torn down
+   (intended: an interrupt must not be swallowed).  This is why C15_teardown_completes has its hypothesis and why
+   C15_torn_down_exactly_once speaks about a teardown_factory that has FINISHED (td_finished), not one that was aborted. *)
+Theorem C15_torn_down_after_base_exception_refuted : exists (c : cfg) (sch : list actor) (t : tid) (o : obj),
   let s := run c sch in
-  In (t, Some o) (accesses s) /\ pcs s 0 = Idle /\ pcs s 1 = Idle /\ length (created s) = 2 /\ td s = TdRaised /\
+  In (t, Some o) (accesses s) /\ pcs s 0 = Idle /\ pcs s 1 = Idle /\ length (created s) = 2 /\ td s = TdAborted 0 /\
   In o (objects s) /\ ~ In o (torn s) /\ torn (run c (sch ++ [Main; Main; Main])) = torn s.
-Proof. exists (cfg_of [] [0]), sch_raise, 1, 1. vm_compute. intuition discriminate. Qed.
-Print Assumptions C15_torn_down_after_raise_refuted.
+Proof. exists (cfg_of [] [] [0]), sch_raise, 1, 1. vm_compute. intuition discriminate. Qed.
+Print Assumptions C15_torn_down_after_base_exception_refuted.
 
 (* ---- non-vacuity: three threads racing on their first access, a failing setup on thread 2 that is retried, reuse,
-   then teardown with everybody idle: the hypotheses of C15_torn_down_exactly_once hold and three objects are torn down *)
+   then teardown with everybody idle, where the teardown of objects 1 and 2 raises: the hypotheses of
+   C15_torn_down_exactly_once_alone (hence, by Proofs.ThreadedP.quiet_alone, those of C15_torn_down_exactly_once) hold,
+   all three objects are torn down and the failure of object 1 (the first one) is what teardown_factory raises *)
 Definition sch_witness : list actor :=
   [Th 0; Th 1; Th 0; Th 2; Th 1; Th 0; Th 2; Th 2; Th 1; Th 2; Th 0; Th 1; Th 1; Th 0; Th 0; Th 1; Th 0; Th 1;
-   Th 2; Th 2; Th 2; Th 2; Th 2; Th 2; Th 2; Th 0; Th 0; Main; Main; Main; Main; Main; Main; Main].
+   Th 2; Th 2; Th 2; Th 2; Th 2; Th 2; Th 2; Th 0; Th 0].
+Definition cfg_witness : cfg := cfg_of [(2, 0)] [1; 2] [].
 Example C15_witness :
-  teardown_returns_after (cfg_of [(2, 0)] []) sch_witness /\
-  o_torn (observe 3 (run (cfg_of [(2, 0)] []) (sch_witness ++ [Main]))) = [0; 1; 2] /\
-  o_accesses (observe 3 (run (cfg_of [(2, 0)] []) (sch_witness ++ [Main]))) =
+  td (run cfg_witness sch_witness) = TdNotCalled /\
+  (forall t o, ~ in_flight (run cfg_witness sch_witness) t o) /\
+  teardown_finishes_after cfg_witness (sch_witness ++ repeat Main 18) /\
+  quiet_after_loop cfg_witness (sch_witness ++ repeat Main 19) /\
+  td (run cfg_witness (sch_witness ++ repeat Main 19)) = TdRaised 1 /\
+  o_torn (observe 3 (run cfg_witness (sch_witness ++ repeat Main 19))) = [0; 1; 2] /\
+  o_accesses (observe 3 (run cfg_witness (sch_witness ++ repeat Main 19))) =
     [(2, None); (0, Some 0); (1, Some 1); (2, Some 2); (0, Some 0)] /\
-  o_pcs (observe 3 (run (cfg_of [(2, 0)] []) (sch_witness ++ [Main]))) = [(0, 0); (0, 0); (0, 0)].
-Proof. unfold teardown_returns_after. vm_compute. repeat split; congruence. Qed.
+  o_pcs (observe 3 (run cfg_witness (sch_witness ++ repeat Main 19))) = [(0, 0); (0, 0); (0, 0)].
+Proof.
+  assert (Hq : forall t o, ~ in_flight (run cfg_witness sch_witness) t o).
+  { intros t o [H|H]; do 3 (destruct t as [|t]; [vm_compute in H; discriminate|]); vm_compute in H; discriminate. }
+  split; [vm_compute; reflexivity|]. split; [exact Hq|].
+  split; [unfold teardown_finishes_after; vm_compute; split; reflexivity|].
+  split; [apply quiet_alone; [vm_compute; reflexivity|exact Hq]|].
+  vm_compute. repeat split; congruence.
+Qed.
+
+(* the same run with nothing raising returns normally (13 steps of teardown_factory for three objects) *)
+Example C15_witness_returns :
+  td (run (cfg_of [(2, 0)] [] []) (sch_witness ++ repeat Main 13)) = TdDone /\
+  torn (run (cfg_of [(2, 0)] [] []) (sch_witness ++ repeat Main 13)) = [0; 1; 2].
+Proof. vm_compute. split; reflexivity. Qed.
